@@ -206,9 +206,12 @@ func (v *VerifC15Round) Settle() (string, error) {
 
 // StrayFuture reports how many messages Processor.futureMessages holds under key.
 func (v *VerifC15Round) StrayFuture(key string) int {
-	raw, ok := v.P.futureMessages.Get(key)
+	raw, ok := v.P.futureMessages.Peek(key) // Peek: reading must not change the recency order
 	if !ok {
 		return 0
 	}
 	return len(raw.([]model.ConsensusMessage))
 }
+
+// ParkedKeys reports how many keys Processor.futureMessages holds.
+func (v *VerifC15Round) ParkedKeys() int { return v.P.futureMessages.Len() }
